@@ -80,10 +80,64 @@ func pipelinedCase(r *Recorder, kk bool, ahead, rounds int) {
 	r.Case(fmt.Sprintf("pipelined:%v:%d:%d", kk, ahead, rounds), true, "pipelined-rotation")
 }
 
+// refusedWriteCase: a record whose Flush was interrupted, a WriteMessage that is refused meanwhile
+// (ErrMessageNotFlushed), the Flush completed: nothing of the refused record reached the wire, so it
+// must not have consumed a nonce either — the next record still decrypts.
+func refusedWriteCase(r *Recorder, kk bool, cut int) {
+	pass := []byte("pairing-phrase-entropy")
+	cli := &hsSide{Priv: key(3021), Passphrase: pass, Min: 0, Max: 2}
+	srv := &hsSide{Priv: key(3022), Passphrase: pass, AuthData: []byte("auth"), Min: 0, Max: 2}
+	if kk {
+		cli.Remote, srv.Remote = srv.Priv.PubKey(), cli.Priv.PubKey()
+		cli.Min, srv.Min = 2, 2
+	}
+	cc, sc := newMemPair()
+	runHandshake(cli, srv, cc, sc)
+	name := fmt.Sprintf("refused-write:kk=%v:cut=%d", kk, cut)
+	if cli.Err != nil || srv.Err != nil {
+		r.Violate("C08/setup", fmt.Sprintf("handshake failed: %v %v", cli.Err, srv.Err), name)
+		return
+	}
+	w, rd := cli.Machine, srv.Machine
+	p1, p2, p3 := patterned(40, 1), patterned(7, 2), patterned(23, 3)
+	bw := &budgetWriter{budgets: []int{cut}}
+	if err := w.WriteMessage(p1); err != nil {
+		r.Violate("C08/write-failed", err.Error(), name)
+		return
+	}
+	w.Flush(bw)                   // accepts `cut` bytes, then times out
+	refused := w.WriteMessage(p2) // must be refused while p1 is pending
+	for i := 0; i < 4; i++ {
+		if _, err := w.Flush(bw); err == nil {
+			break
+		}
+	}
+	got1, err1 := rd.ReadMessage(bytes.NewReader(bw.out))
+	bw2 := &budgetWriter{}
+	errW := w.WriteMessage(p3)
+	w.Flush(bw2)
+	got3, err3 := rd.ReadMessage(bytes.NewReader(bw2.out))
+	switch {
+	case refused == nil:
+		// a second record accepted while the first is pending is C16's subject; nothing to judge here
+	case err1 != nil || !bytes.Equal(got1, p1):
+		r.Violate("C08/keys-out-of-step", fmt.Sprintf("record flushed in two parts (cut at %d wire bytes) with a refused WriteMessage in between does not decrypt: %v", cut, err1), name)
+	case errW != nil || err3 != nil || !bytes.Equal(got3, p3):
+		r.Violate("C08/keys-out-of-step", fmt.Sprintf("after a WriteMessage that was refused (%v) while a record was pending (cut at %d wire bytes), the next record does not decrypt: write %v, read %v (sender %d cipher uses, receiver %d)",
+			refused, cut, errW, err3, w.VState().SendNonce, rd.VState().RecvNonce), name)
+	}
+	r.Case(name, true, "refused-write")
+}
+
 func TestC08(t *testing.T) {
 	r := NewRecorder(t, "C08")
 	defer r.Close(t)
 	rng := newRand(8)
+	for _, kk := range []bool{false, true} {
+		for _, cut := range []int{0, 5, 17, 18, 30, 73} {
+			refusedWriteCase(r, kk, cut)
+		}
+	}
 	for _, kk := range []bool{false, true} {
 		pipelinedCase(r, kk, 520, 3) // every round crosses a rotation in both directions
 		pipelinedCase(r, kk, 250, 5) // rotations fall inside a round
